@@ -30,6 +30,7 @@ CONSTANTS
  E2E = TRUE
  Aead = TRUE
  CheckIdent = TRUE
+ RelayOnce = TRUE
  AutoTimers = TRUE
 INVARIANT TypeOK
 INVARIANT ExitIntegrity
